@@ -1,0 +1,18 @@
+//go:build verif
+// +build verif
+
+package retry
+
+import "sync"
+
+var verifStoppedLoops sync.Map
+
+func (a *asyncFifoRetryImpl) verifStopped() bool {
+	_, ok := verifStoppedLoops.LoadAndDelete(a)
+	return ok
+}
+
+// StopForVerif makes Run return at its next tick
+func (a *asyncFifoRetryImpl) StopForVerif() {
+	verifStoppedLoops.Store(a, struct{}{})
+}
